@@ -16,6 +16,11 @@ CLAIMED = {
          "All histories over an alphabet with one request per function code the outstation executes (20 requests), byte-identical Repeat, right/wrong solicited confirm, unsolicited confirm, database update, confirm timeout (and reconnect in the thorough tier), depth 3-4 quick / 4-5 thorough, with transmit buffers 249/300/2048 (class-0 response spans 3 fragments at 249) and unsolicited reporting off and on (after an ideal null-unsolicited handshake), executed on the real OutstationTask; after each Repeat the oracle requires no executing callback and a byte-identical reply (non-READ), or set membership in the fragments already transmitted (READ echo during a confirm wait, unsolicited retries).",
          "Trusted: engine codecs, paused clock, DESIGN 2.3. A READ repeated from idle may legitimately be answered afresh (library comment) and is not constrained.",
          "DESIGN.md §5 C05", True),
+ "C12": ("model_checking",
+         "exhaustive enumeration of a finite request product (state x function code x header flags x object menu) on the real outstation task, each request paired with the fragments transmitted afterwards",
+         "Five session states (idle, solicited confirm wait final / mid-series, data and null unsolicited confirm wait) x function code 0..=255 x 16 FIR/FIN/CON/UNS combinations x sequence {0,15} x a per-function menu of accepted / rejected / unparsable object headers (singly, and all ordered pairs for functions 1..=30) x transmit buffer {249, 2048 thorough}, plus control and READ requests sized around the transmit/receive limits. Oracle: solicited responses carry the request's sequence number without UNS; unsolicited ones carry UNS/FIR/FIN/CON with consecutive numbering; CONFIRM and no-response codes are never answered; every fragment fits the transmit size and is decodable by the engine's own object walker; unsupported / malformed / partly rejected requests carry IIN2.0-2.",
+         "Trusted: engine codecs and the reference classification of which headers each function accepts (written from IEEE 1815 and the statement). Fragments < 2 bytes and fragments with a response function code are not treated as requests.",
+         "DESIGN.md §5 C12", True),
 }
 
 NOT_YET = {
@@ -28,7 +33,6 @@ NOT_YET = {
  "C09": "designed in DESIGN §5 C09; check not built yet",
  "C10": "designed in DESIGN §5 C10; check not built yet",
  "C11": "designed in DESIGN §5 C11; check not built yet",
- "C12": "designed in DESIGN §5 C12; check not built yet",
  "C13": "designed in DESIGN §5 C13; check not built yet",
  "C14": "designed in DESIGN §5 C14; check not built yet",
  "C15": "designed in DESIGN §5 C15; check not built yet",
